@@ -7,117 +7,117 @@ open Zrnt.Schema STy
 
 /-! ## phase0 -/
 namespace P0
-def AttestationBits : STy := .bitlist (c "MAX_VALIDATORS_PER_COMMITTEE")
-def CommitteeIndices : STy := .list ValidatorIndex (c "MAX_VALIDATORS_PER_COMMITTEE")
+def AttestationBits : STy := .bitlist (c n!"MAX_VALIDATORS_PER_COMMITTEE")
+def CommitteeIndices : STy := .list ValidatorIndex (c n!"MAX_VALIDATORS_PER_COMMITTEE")
 def IndexedAttestation := struct [
-  ("attesting_indices", CommitteeIndices), ("data", AttestationData), ("signature", BLSSignature)]
+  (n!"attesting_indices", CommitteeIndices), (n!"data", AttestationData), (n!"signature", BLSSignature)]
 def PendingAttestation := struct [
-  ("aggregation_bits", AttestationBits), ("data", AttestationData), ("inclusion_delay", Slot),
-  ("proposer_index", ValidatorIndex)]
-def BatchRoots : STy := .vector Root (c "SLOTS_PER_HISTORICAL_ROOT")
-def HistoricalBatch := struct [("block_roots", BatchRoots), ("state_roots", BatchRoots)]
+  (n!"aggregation_bits", AttestationBits), (n!"data", AttestationData), (n!"inclusion_delay", Slot),
+  (n!"proposer_index", ValidatorIndex)]
+def BatchRoots : STy := .vector Root (c n!"SLOTS_PER_HISTORICAL_ROOT")
+def HistoricalBatch := struct [(n!"block_roots", BatchRoots), (n!"state_roots", BatchRoots)]
 def ProposerSlashing := struct [
-  ("signed_header_1", SignedBeaconBlockHeader), ("signed_header_2", SignedBeaconBlockHeader)]
-def AttesterSlashing := struct [("attestation_1", IndexedAttestation), ("attestation_2", IndexedAttestation)]
+  (n!"signed_header_1", SignedBeaconBlockHeader), (n!"signed_header_2", SignedBeaconBlockHeader)]
+def AttesterSlashing := struct [(n!"attestation_1", IndexedAttestation), (n!"attestation_2", IndexedAttestation)]
 def Attestation := struct [
-  ("aggregation_bits", AttestationBits), ("data", AttestationData), ("signature", BLSSignature)]
-def VoluntaryExit := struct [("epoch", Epoch), ("validator_index", ValidatorIndex)]
-def SignedVoluntaryExit := struct [("message", VoluntaryExit), ("signature", BLSSignature)]
-def ProposerSlashings : STy := .list ProposerSlashing (c "MAX_PROPOSER_SLASHINGS")
-def AttesterSlashings : STy := .list AttesterSlashing (c "MAX_ATTESTER_SLASHINGS")
-def Attestations : STy := .list Attestation (c "MAX_ATTESTATIONS")
-def Deposits : STy := .list Deposit (c "MAX_DEPOSITS")
-def VoluntaryExits : STy := .list SignedVoluntaryExit (c "MAX_VOLUNTARY_EXITS")
-def bodyFields : List (String × STy) := [
-  ("randao_reveal", BLSSignature), ("eth1_data", Eth1Data), ("graffiti", Bytes32),
-  ("proposer_slashings", ProposerSlashings), ("attester_slashings", AttesterSlashings),
-  ("attestations", Attestations), ("deposits", Deposits), ("voluntary_exits", VoluntaryExits)]
+  (n!"aggregation_bits", AttestationBits), (n!"data", AttestationData), (n!"signature", BLSSignature)]
+def VoluntaryExit := struct [(n!"epoch", Epoch), (n!"validator_index", ValidatorIndex)]
+def SignedVoluntaryExit := struct [(n!"message", VoluntaryExit), (n!"signature", BLSSignature)]
+def ProposerSlashings : STy := .list ProposerSlashing (c n!"MAX_PROPOSER_SLASHINGS")
+def AttesterSlashings : STy := .list AttesterSlashing (c n!"MAX_ATTESTER_SLASHINGS")
+def Attestations : STy := .list Attestation (c n!"MAX_ATTESTATIONS")
+def Deposits : STy := .list Deposit (c n!"MAX_DEPOSITS")
+def VoluntaryExits : STy := .list SignedVoluntaryExit (c n!"MAX_VOLUNTARY_EXITS")
+def bodyFields : List (Name × STy) := [
+  (n!"randao_reveal", BLSSignature), (n!"eth1_data", Eth1Data), (n!"graffiti", Bytes32),
+  (n!"proposer_slashings", ProposerSlashings), (n!"attester_slashings", AttesterSlashings),
+  (n!"attestations", Attestations), (n!"deposits", Deposits), (n!"voluntary_exits", VoluntaryExits)]
 def BeaconBlockBody := struct bodyFields
 def blockOf (body : STy) := struct [
-  ("slot", Slot), ("proposer_index", ValidatorIndex), ("parent_root", Root), ("state_root", Root), ("body", body)]
-def signedOf (msg : STy) := struct [("message", msg), ("signature", BLSSignature)]
+  (n!"slot", Slot), (n!"proposer_index", ValidatorIndex), (n!"parent_root", Root), (n!"state_root", Root), (n!"body", body)]
+def signedOf (msg : STy) := struct [(n!"message", msg), (n!"signature", BLSSignature)]
 def BeaconBlock := blockOf BeaconBlockBody
 def SignedBeaconBlock := signedOf BeaconBlock
-def HistoricalRoots : STy := .list Root (c "HISTORICAL_ROOTS_LIMIT")
-def Eth1DataVotes : STy := .list Eth1Data (c "EPOCHS_PER_ETH1_VOTING_PERIOD" * c "SLOTS_PER_EPOCH")
-def ValidatorRegistry : STy := .list Validator (c "VALIDATOR_REGISTRY_LIMIT")
-def Balances : STy := .list Gwei (c "VALIDATOR_REGISTRY_LIMIT")
-def RandaoMixes : STy := .vector Bytes32 (c "EPOCHS_PER_HISTORICAL_VECTOR")
-def Slashings : STy := .vector Gwei (c "EPOCHS_PER_SLASHINGS_VECTOR")
-def PendingAttestations : STy := .list PendingAttestation (c "MAX_ATTESTATIONS" * c "SLOTS_PER_EPOCH")
+def HistoricalRoots : STy := .list Root (c n!"HISTORICAL_ROOTS_LIMIT")
+def Eth1DataVotes : STy := .list Eth1Data (c n!"EPOCHS_PER_ETH1_VOTING_PERIOD" * c n!"SLOTS_PER_EPOCH")
+def ValidatorRegistry : STy := .list Validator (c n!"VALIDATOR_REGISTRY_LIMIT")
+def Balances : STy := .list Gwei (c n!"VALIDATOR_REGISTRY_LIMIT")
+def RandaoMixes : STy := .vector Bytes32 (c n!"EPOCHS_PER_HISTORICAL_VECTOR")
+def Slashings : STy := .vector Gwei (c n!"EPOCHS_PER_SLASHINGS_VECTOR")
+def PendingAttestations : STy := .list PendingAttestation (c n!"MAX_ATTESTATIONS" * c n!"SLOTS_PER_EPOCH")
 /-- the fields every fork's state starts with, up to and including `slashings` -/
-def stateHead : List (String × STy) := [
-  ("genesis_time", uint64), ("genesis_validators_root", Root), ("slot", Slot), ("fork", Fork),
-  ("latest_block_header", BeaconBlockHeader), ("block_roots", BatchRoots), ("state_roots", BatchRoots),
-  ("historical_roots", HistoricalRoots),
-  ("eth1_data", Eth1Data), ("eth1_data_votes", Eth1DataVotes), ("eth1_deposit_index", uint64),
-  ("validators", ValidatorRegistry), ("balances", Balances),
-  ("randao_mixes", RandaoMixes), ("slashings", Slashings)]
-def stateFinality : List (String × STy) := [
-  ("justification_bits", JustificationBits),
-  ("previous_justified_checkpoint", Checkpoint), ("current_justified_checkpoint", Checkpoint),
-  ("finalized_checkpoint", Checkpoint)]
+def stateHead : List (Name × STy) := [
+  (n!"genesis_time", uint64), (n!"genesis_validators_root", Root), (n!"slot", Slot), (n!"fork", Fork),
+  (n!"latest_block_header", BeaconBlockHeader), (n!"block_roots", BatchRoots), (n!"state_roots", BatchRoots),
+  (n!"historical_roots", HistoricalRoots),
+  (n!"eth1_data", Eth1Data), (n!"eth1_data_votes", Eth1DataVotes), (n!"eth1_deposit_index", uint64),
+  (n!"validators", ValidatorRegistry), (n!"balances", Balances),
+  (n!"randao_mixes", RandaoMixes), (n!"slashings", Slashings)]
+def stateFinality : List (Name × STy) := [
+  (n!"justification_bits", JustificationBits),
+  (n!"previous_justified_checkpoint", Checkpoint), (n!"current_justified_checkpoint", Checkpoint),
+  (n!"finalized_checkpoint", Checkpoint)]
 def BeaconState := struct (stateHead ++ [
-  ("previous_epoch_attestations", PendingAttestations), ("current_epoch_attestations", PendingAttestations)]
+  (n!"previous_epoch_attestations", PendingAttestations), (n!"current_epoch_attestations", PendingAttestations)]
   ++ stateFinality)
 -- phase0/validator.md
 def AggregateAndProof := struct [
-  ("aggregator_index", ValidatorIndex), ("aggregate", Attestation), ("selection_proof", BLSSignature)]
+  (n!"aggregator_index", ValidatorIndex), (n!"aggregate", Attestation), (n!"selection_proof", BLSSignature)]
 def SignedAggregateAndProof := signedOf AggregateAndProof
 end P0
 
-def phase0Table : List (String × STy) := [
-  ("phase0.SignedAggregateAndProof", P0.SignedAggregateAndProof), ("phase0.AggregateAndProof", P0.AggregateAndProof),
-  ("phase0.Attestation", P0.Attestation), ("phase0.Attestations", P0.Attestations),
-  ("phase0.AttestationBits", P0.AttestationBits),
-  ("phase0.AttesterSlashing", P0.AttesterSlashing), ("phase0.AttesterSlashings", P0.AttesterSlashings),
-  ("phase0.Balances", P0.Balances),
-  ("phase0.SignedBeaconBlock", P0.SignedBeaconBlock), ("phase0.BeaconBlock", P0.BeaconBlock),
-  ("phase0.BeaconBlockBody", P0.BeaconBlockBody),
-  ("phase0.Deposits", P0.Deposits), ("phase0.Eth1DataVotes", P0.Eth1DataVotes),
-  ("phase0.HistoricalBatchRoots", P0.BatchRoots), ("phase0.HistoricalBatch", P0.HistoricalBatch),
-  ("phase0.HistoricalRoots", P0.HistoricalRoots),
-  ("phase0.IndexedAttestation", P0.IndexedAttestation),
-  ("phase0.PendingAttestation", P0.PendingAttestation), ("phase0.AttestationData", AttestationData),
-  ("phase0.PendingAttestations", P0.PendingAttestations),
-  ("phase0.ProposerSlashing", P0.ProposerSlashing), ("phase0.ProposerSlashings", P0.ProposerSlashings),
-  ("phase0.RandaoMixes", P0.RandaoMixes),
+def phase0Table : List (Name × STy) := [
+  (n!"phase0.SignedAggregateAndProof", P0.SignedAggregateAndProof), (n!"phase0.AggregateAndProof", P0.AggregateAndProof),
+  (n!"phase0.Attestation", P0.Attestation), (n!"phase0.Attestations", P0.Attestations),
+  (n!"phase0.AttestationBits", P0.AttestationBits),
+  (n!"phase0.AttesterSlashing", P0.AttesterSlashing), (n!"phase0.AttesterSlashings", P0.AttesterSlashings),
+  (n!"phase0.Balances", P0.Balances),
+  (n!"phase0.SignedBeaconBlock", P0.SignedBeaconBlock), (n!"phase0.BeaconBlock", P0.BeaconBlock),
+  (n!"phase0.BeaconBlockBody", P0.BeaconBlockBody),
+  (n!"phase0.Deposits", P0.Deposits), (n!"phase0.Eth1DataVotes", P0.Eth1DataVotes),
+  (n!"phase0.HistoricalBatchRoots", P0.BatchRoots), (n!"phase0.HistoricalBatch", P0.HistoricalBatch),
+  (n!"phase0.HistoricalRoots", P0.HistoricalRoots),
+  (n!"phase0.IndexedAttestation", P0.IndexedAttestation),
+  (n!"phase0.PendingAttestation", P0.PendingAttestation), (n!"phase0.AttestationData", AttestationData),
+  (n!"phase0.PendingAttestations", P0.PendingAttestations),
+  (n!"phase0.ProposerSlashing", P0.ProposerSlashing), (n!"phase0.ProposerSlashings", P0.ProposerSlashings),
+  (n!"phase0.RandaoMixes", P0.RandaoMixes),
   -- helper: a list of validator indices over the whole registry
-  ("phase0.RegistryIndices", .list ValidatorIndex (c "VALIDATOR_REGISTRY_LIMIT")),
-  ("phase0.ValidatorRegistry", P0.ValidatorRegistry), ("phase0.SlashingsHistory", P0.Slashings),
-  ("phase0.BeaconState", P0.BeaconState), ("phase0.Validator", Validator),
-  ("phase0.VoluntaryExits", P0.VoluntaryExits), ("phase0.VoluntaryExit", P0.VoluntaryExit),
-  ("phase0.SignedVoluntaryExit", P0.SignedVoluntaryExit)
+  (n!"phase0.RegistryIndices", .list ValidatorIndex (c n!"VALIDATOR_REGISTRY_LIMIT")),
+  (n!"phase0.ValidatorRegistry", P0.ValidatorRegistry), (n!"phase0.SlashingsHistory", P0.Slashings),
+  (n!"phase0.BeaconState", P0.BeaconState), (n!"phase0.Validator", Validator),
+  (n!"phase0.VoluntaryExits", P0.VoluntaryExits), (n!"phase0.VoluntaryExit", P0.VoluntaryExit),
+  (n!"phase0.SignedVoluntaryExit", P0.SignedVoluntaryExit)
 ]
 
 /-! ## altair -/
 namespace Alt
-def SyncCommitteeBits : STy := .bitvector (c "SYNC_COMMITTEE_SIZE")
+def SyncCommitteeBits : STy := .bitvector (c n!"SYNC_COMMITTEE_SIZE")
 def SyncAggregate := struct [
-  ("sync_committee_bits", SyncCommitteeBits), ("sync_committee_signature", BLSSignature)]
-def bodyFields := P0.bodyFields ++ [("sync_aggregate", SyncAggregate)]
+  (n!"sync_committee_bits", SyncCommitteeBits), (n!"sync_committee_signature", BLSSignature)]
+def bodyFields := P0.bodyFields ++ [(n!"sync_aggregate", SyncAggregate)]
 def BeaconBlockBody := struct bodyFields
 def BeaconBlock := P0.blockOf BeaconBlockBody
 def SignedBeaconBlock := P0.signedOf BeaconBlock
-def ParticipationRegistry : STy := .list ParticipationFlags (c "VALIDATOR_REGISTRY_LIMIT")
-def InactivityScores : STy := .list uint64 (c "VALIDATOR_REGISTRY_LIMIT")
-def stateMid : List (String × STy) := [
-  ("previous_epoch_participation", ParticipationRegistry), ("current_epoch_participation", ParticipationRegistry)]
+def ParticipationRegistry : STy := .list ParticipationFlags (c n!"VALIDATOR_REGISTRY_LIMIT")
+def InactivityScores : STy := .list uint64 (c n!"VALIDATOR_REGISTRY_LIMIT")
+def stateMid : List (Name × STy) := [
+  (n!"previous_epoch_participation", ParticipationRegistry), (n!"current_epoch_participation", ParticipationRegistry)]
   ++ P0.stateFinality ++ [
-  ("inactivity_scores", InactivityScores),
-  ("current_sync_committee", SyncCommittee), ("next_sync_committee", SyncCommittee)]
+  (n!"inactivity_scores", InactivityScores),
+  (n!"current_sync_committee", SyncCommittee), (n!"next_sync_committee", SyncCommittee)]
 def BeaconState := struct (P0.stateHead ++ stateMid)
 -- altair/validator.md
 def SyncCommitteeMessage := struct [
-  ("slot", Slot), ("beacon_block_root", Root), ("validator_index", ValidatorIndex), ("signature", BLSSignature)]
-def SyncCommitteeSubnetBits : STy := .bitvector (c "SYNC_COMMITTEE_SIZE" / SYNC_COMMITTEE_SUBNET_COUNT)
+  (n!"slot", Slot), (n!"beacon_block_root", Root), (n!"validator_index", ValidatorIndex), (n!"signature", BLSSignature)]
+def SyncCommitteeSubnetBits : STy := .bitvector (c n!"SYNC_COMMITTEE_SIZE" / SYNC_COMMITTEE_SUBNET_COUNT)
 def SyncCommitteeContribution := struct [
-  ("slot", Slot), ("beacon_block_root", Root), ("subcommittee_index", uint64),
-  ("aggregation_bits", SyncCommitteeSubnetBits), ("signature", BLSSignature)]
+  (n!"slot", Slot), (n!"beacon_block_root", Root), (n!"subcommittee_index", uint64),
+  (n!"aggregation_bits", SyncCommitteeSubnetBits), (n!"signature", BLSSignature)]
 def ContributionAndProof := struct [
-  ("aggregator_index", ValidatorIndex), ("contribution", SyncCommitteeContribution), ("selection_proof", BLSSignature)]
+  (n!"aggregator_index", ValidatorIndex), (n!"contribution", SyncCommitteeContribution), (n!"selection_proof", BLSSignature)]
 def SignedContributionAndProof := P0.signedOf ContributionAndProof
-def SyncAggregatorSelectionData := struct [("slot", Slot), ("subcommittee_index", uint64)]
+def SyncAggregatorSelectionData := struct [(n!"slot", Slot), (n!"subcommittee_index", uint64)]
 -- altair/light-client/sync-protocol.md. `LightClientSnapshot` is the v1.1.x container, `LightClientUpdate`
 -- the v1.2.0 container (before `LightClientHeader` was introduced); generalized indices 55 and 105.
 def NEXT_SYNC_COMMITTEE_INDEX_LOG2 : LExpr := 5   -- floorlog2(55)
@@ -125,160 +125,160 @@ def FINALIZED_ROOT_INDEX_LOG2 : LExpr := 6        -- floorlog2(105)
 def SyncCommitteeProofBranch : STy := .vector Bytes32 NEXT_SYNC_COMMITTEE_INDEX_LOG2
 def FinalizedRootProofBranch : STy := .vector Bytes32 FINALIZED_ROOT_INDEX_LOG2
 def LightClientSnapshot := struct [
-  ("header", BeaconBlockHeader), ("current_sync_committee", SyncCommittee), ("next_sync_committee", SyncCommittee)]
+  (n!"header", BeaconBlockHeader), (n!"current_sync_committee", SyncCommittee), (n!"next_sync_committee", SyncCommittee)]
 def LightClientUpdate := struct [
-  ("attested_header", BeaconBlockHeader), ("next_sync_committee", SyncCommittee),
-  ("next_sync_committee_branch", SyncCommitteeProofBranch),
-  ("finalized_header", BeaconBlockHeader), ("finality_branch", FinalizedRootProofBranch),
-  ("sync_aggregate", SyncAggregate), ("signature_slot", Slot)]
+  (n!"attested_header", BeaconBlockHeader), (n!"next_sync_committee", SyncCommittee),
+  (n!"next_sync_committee_branch", SyncCommitteeProofBranch),
+  (n!"finalized_header", BeaconBlockHeader), (n!"finality_branch", FinalizedRootProofBranch),
+  (n!"sync_aggregate", SyncAggregate), (n!"signature_slot", Slot)]
 end Alt
 
-def altairTable : List (String × STy) := [
-  ("altair.SignedBeaconBlock", Alt.SignedBeaconBlock), ("altair.BeaconBlock", Alt.BeaconBlock),
-  ("altair.BeaconBlockBody", Alt.BeaconBlockBody),
-  ("altair.InactivityScores", Alt.InactivityScores),
-  ("altair.LightClientSnapshot", Alt.LightClientSnapshot),
-  ("altair.SyncCommitteeProofBranch", Alt.SyncCommitteeProofBranch),
-  ("altair.FinalizedRootProofBranch", Alt.FinalizedRootProofBranch),
-  ("altair.LightClientUpdate", Alt.LightClientUpdate),
-  ("altair.ParticipationFlags", ParticipationFlags), ("altair.ParticipationRegistry", Alt.ParticipationRegistry),
-  ("altair.BeaconState", Alt.BeaconState), ("altair.SyncAggregate", Alt.SyncAggregate),
-  ("altair.SyncAggregatorSelectionData", Alt.SyncAggregatorSelectionData),
-  ("altair.SyncCommitteeSubnetBits", Alt.SyncCommitteeSubnetBits), ("altair.SyncCommitteeBits", Alt.SyncCommitteeBits),
-  ("altair.SyncCommitteeContribution", Alt.SyncCommitteeContribution),
-  ("altair.ContributionAndProof", Alt.ContributionAndProof),
-  ("altair.SignedContributionAndProof", Alt.SignedContributionAndProof),
-  ("altair.SyncCommitteeMessage", Alt.SyncCommitteeMessage)
+def altairTable : List (Name × STy) := [
+  (n!"altair.SignedBeaconBlock", Alt.SignedBeaconBlock), (n!"altair.BeaconBlock", Alt.BeaconBlock),
+  (n!"altair.BeaconBlockBody", Alt.BeaconBlockBody),
+  (n!"altair.InactivityScores", Alt.InactivityScores),
+  (n!"altair.LightClientSnapshot", Alt.LightClientSnapshot),
+  (n!"altair.SyncCommitteeProofBranch", Alt.SyncCommitteeProofBranch),
+  (n!"altair.FinalizedRootProofBranch", Alt.FinalizedRootProofBranch),
+  (n!"altair.LightClientUpdate", Alt.LightClientUpdate),
+  (n!"altair.ParticipationFlags", ParticipationFlags), (n!"altair.ParticipationRegistry", Alt.ParticipationRegistry),
+  (n!"altair.BeaconState", Alt.BeaconState), (n!"altair.SyncAggregate", Alt.SyncAggregate),
+  (n!"altair.SyncAggregatorSelectionData", Alt.SyncAggregatorSelectionData),
+  (n!"altair.SyncCommitteeSubnetBits", Alt.SyncCommitteeSubnetBits), (n!"altair.SyncCommitteeBits", Alt.SyncCommitteeBits),
+  (n!"altair.SyncCommitteeContribution", Alt.SyncCommitteeContribution),
+  (n!"altair.ContributionAndProof", Alt.ContributionAndProof),
+  (n!"altair.SignedContributionAndProof", Alt.SignedContributionAndProof),
+  (n!"altair.SyncCommitteeMessage", Alt.SyncCommitteeMessage)
 ]
 
 /-! ## bellatrix -/
 namespace Bel
-def payloadHead : List (String × STy) := [
-  ("parent_hash", Hash32), ("fee_recipient", ExecutionAddress), ("state_root", Bytes32), ("receipts_root", Bytes32),
-  ("logs_bloom", LogsBloom), ("prev_randao", Bytes32), ("block_number", uint64), ("gas_limit", uint64),
-  ("gas_used", uint64), ("timestamp", uint64), ("extra_data", ExtraData), ("base_fee_per_gas", uint256),
-  ("block_hash", Hash32)]
-def ExecutionPayload := struct (payloadHead ++ [("transactions", PayloadTransactions)])
-def ExecutionPayloadHeader := struct (payloadHead ++ [("transactions_root", Root)])
-def bodyFields := Alt.bodyFields ++ [("execution_payload", ExecutionPayload)]
+def payloadHead : List (Name × STy) := [
+  (n!"parent_hash", Hash32), (n!"fee_recipient", ExecutionAddress), (n!"state_root", Bytes32), (n!"receipts_root", Bytes32),
+  (n!"logs_bloom", LogsBloom), (n!"prev_randao", Bytes32), (n!"block_number", uint64), (n!"gas_limit", uint64),
+  (n!"gas_used", uint64), (n!"timestamp", uint64), (n!"extra_data", ExtraData), (n!"base_fee_per_gas", uint256),
+  (n!"block_hash", Hash32)]
+def ExecutionPayload := struct (payloadHead ++ [(n!"transactions", PayloadTransactions)])
+def ExecutionPayloadHeader := struct (payloadHead ++ [(n!"transactions_root", Root)])
+def bodyFields := Alt.bodyFields ++ [(n!"execution_payload", ExecutionPayload)]
 def BeaconBlockBody := struct bodyFields
 /-- helper (not a specification container): the body with the payload replaced by its hash-tree-root -/
-def BeaconBlockBodyShallow := struct (Alt.bodyFields ++ [("execution_payload_root", Root)])
+def BeaconBlockBodyShallow := struct (Alt.bodyFields ++ [(n!"execution_payload_root", Root)])
 def BeaconBlock := P0.blockOf BeaconBlockBody
 def SignedBeaconBlock := P0.signedOf BeaconBlock
-def BeaconState := struct (P0.stateHead ++ Alt.stateMid ++ [("latest_execution_payload_header", ExecutionPayloadHeader)])
+def BeaconState := struct (P0.stateHead ++ Alt.stateMid ++ [(n!"latest_execution_payload_header", ExecutionPayloadHeader)])
 end Bel
 
-def bellatrixTable : List (String × STy) := [
-  ("bellatrix.SignedBeaconBlock", Bel.SignedBeaconBlock), ("bellatrix.BeaconBlock", Bel.BeaconBlock),
-  ("bellatrix.BeaconBlockBody", Bel.BeaconBlockBody), ("bellatrix.BeaconBlockBodyShallow", Bel.BeaconBlockBodyShallow),
-  ("bellatrix.ExecutionPayloadHeader", Bel.ExecutionPayloadHeader), ("bellatrix.ExecutionPayload", Bel.ExecutionPayload),
-  ("bellatrix.BeaconState", Bel.BeaconState)
+def bellatrixTable : List (Name × STy) := [
+  (n!"bellatrix.SignedBeaconBlock", Bel.SignedBeaconBlock), (n!"bellatrix.BeaconBlock", Bel.BeaconBlock),
+  (n!"bellatrix.BeaconBlockBody", Bel.BeaconBlockBody), (n!"bellatrix.BeaconBlockBodyShallow", Bel.BeaconBlockBodyShallow),
+  (n!"bellatrix.ExecutionPayloadHeader", Bel.ExecutionPayloadHeader), (n!"bellatrix.ExecutionPayload", Bel.ExecutionPayload),
+  (n!"bellatrix.BeaconState", Bel.BeaconState)
 ]
 
 /-! ## capella -/
 namespace Cap
-def ExecutionPayload := struct (Bel.payloadHead ++ [("transactions", PayloadTransactions), ("withdrawals", Withdrawals)])
-def ExecutionPayloadHeader := struct (Bel.payloadHead ++ [("transactions_root", Root), ("withdrawals_root", Root)])
-def HistoricalSummary := struct [("block_summary_root", Root), ("state_summary_root", Root)]
-def HistoricalSummaries : STy := .list HistoricalSummary (c "HISTORICAL_ROOTS_LIMIT")
-def bodyOf (payloadField : String × STy) :=
-  Alt.bodyFields ++ [payloadField, ("bls_to_execution_changes", SignedBLSToExecutionChanges)]
-def BeaconBlockBody := struct (bodyOf ("execution_payload", ExecutionPayload))
-def BeaconBlockBodyShallow := struct (bodyOf ("execution_payload_root", Root))
+def ExecutionPayload := struct (Bel.payloadHead ++ [(n!"transactions", PayloadTransactions), (n!"withdrawals", Withdrawals)])
+def ExecutionPayloadHeader := struct (Bel.payloadHead ++ [(n!"transactions_root", Root), (n!"withdrawals_root", Root)])
+def HistoricalSummary := struct [(n!"block_summary_root", Root), (n!"state_summary_root", Root)]
+def HistoricalSummaries : STy := .list HistoricalSummary (c n!"HISTORICAL_ROOTS_LIMIT")
+def bodyOf (payloadField : Name × STy) :=
+  Alt.bodyFields ++ [payloadField, (n!"bls_to_execution_changes", SignedBLSToExecutionChanges)]
+def BeaconBlockBody := struct (bodyOf (n!"execution_payload", ExecutionPayload))
+def BeaconBlockBodyShallow := struct (bodyOf (n!"execution_payload_root", Root))
 def BeaconBlock := P0.blockOf BeaconBlockBody
 def SignedBeaconBlock := P0.signedOf BeaconBlock
-def stateTail (header : STy) : List (String × STy) := [
-  ("latest_execution_payload_header", header),
-  ("next_withdrawal_index", WithdrawalIndex), ("next_withdrawal_validator_index", ValidatorIndex),
-  ("historical_summaries", HistoricalSummaries)]
+def stateTail (header : STy) : List (Name × STy) := [
+  (n!"latest_execution_payload_header", header),
+  (n!"next_withdrawal_index", WithdrawalIndex), (n!"next_withdrawal_validator_index", ValidatorIndex),
+  (n!"historical_summaries", HistoricalSummaries)]
 def BeaconState := struct (P0.stateHead ++ Alt.stateMid ++ stateTail ExecutionPayloadHeader)
 end Cap
 
-def capellaTable : List (String × STy) := [
-  ("capella.SignedBeaconBlock", Cap.SignedBeaconBlock), ("capella.BeaconBlock", Cap.BeaconBlock),
-  ("capella.BeaconBlockBody", Cap.BeaconBlockBody), ("capella.BeaconBlockBodyShallow", Cap.BeaconBlockBodyShallow),
-  ("capella.ExecutionPayloadHeader", Cap.ExecutionPayloadHeader), ("capella.ExecutionPayload", Cap.ExecutionPayload),
-  ("capella.HistoricalSummary", Cap.HistoricalSummary), ("capella.HistoricalSummaries", Cap.HistoricalSummaries),
-  ("capella.BeaconState", Cap.BeaconState)
+def capellaTable : List (Name × STy) := [
+  (n!"capella.SignedBeaconBlock", Cap.SignedBeaconBlock), (n!"capella.BeaconBlock", Cap.BeaconBlock),
+  (n!"capella.BeaconBlockBody", Cap.BeaconBlockBody), (n!"capella.BeaconBlockBodyShallow", Cap.BeaconBlockBodyShallow),
+  (n!"capella.ExecutionPayloadHeader", Cap.ExecutionPayloadHeader), (n!"capella.ExecutionPayload", Cap.ExecutionPayload),
+  (n!"capella.HistoricalSummary", Cap.HistoricalSummary), (n!"capella.HistoricalSummaries", Cap.HistoricalSummaries),
+  (n!"capella.BeaconState", Cap.BeaconState)
 ]
 
 /-! ## deneb -/
 namespace Den
-def blobGas : List (String × STy) := [("blob_gas_used", uint64), ("excess_blob_gas", uint64)]
+def blobGas : List (Name × STy) := [(n!"blob_gas_used", uint64), (n!"excess_blob_gas", uint64)]
 def ExecutionPayload := struct (Bel.payloadHead ++
-  [("transactions", PayloadTransactions), ("withdrawals", Withdrawals)] ++ blobGas)
+  [(n!"transactions", PayloadTransactions), (n!"withdrawals", Withdrawals)] ++ blobGas)
 def ExecutionPayloadHeader := struct (Bel.payloadHead ++
-  [("transactions_root", Root), ("withdrawals_root", Root)] ++ blobGas)
-def KZGCommitments : STy := .list KZGCommitment (c "MAX_BLOB_COMMITMENTS_PER_BLOCK")
-def bodyOf (payloadField : String × STy) :=
-  Cap.bodyOf payloadField ++ [("blob_kzg_commitments", KZGCommitments)]
-def BeaconBlockBody := struct (bodyOf ("execution_payload", ExecutionPayload))
-def BeaconBlockBodyShallow := struct (bodyOf ("execution_payload_root", Root))
+  [(n!"transactions_root", Root), (n!"withdrawals_root", Root)] ++ blobGas)
+def KZGCommitments : STy := .list KZGCommitment (c n!"MAX_BLOB_COMMITMENTS_PER_BLOCK")
+def bodyOf (payloadField : Name × STy) :=
+  Cap.bodyOf payloadField ++ [(n!"blob_kzg_commitments", KZGCommitments)]
+def BeaconBlockBody := struct (bodyOf (n!"execution_payload", ExecutionPayload))
+def BeaconBlockBodyShallow := struct (bodyOf (n!"execution_payload_root", Root))
 def BeaconBlock := P0.blockOf BeaconBlockBody
 def SignedBeaconBlock := P0.signedOf BeaconBlock
 def BeaconState := struct (P0.stateHead ++ Alt.stateMid ++ Cap.stateTail ExecutionPayloadHeader)
 end Den
 
-def denebTable : List (String × STy) := [
-  ("deneb.SignedBeaconBlock", Den.SignedBeaconBlock), ("deneb.BeaconBlock", Den.BeaconBlock),
-  ("deneb.BeaconBlockBody", Den.BeaconBlockBody), ("deneb.BeaconBlockBodyShallow", Den.BeaconBlockBodyShallow),
-  ("deneb.KZGCommitments", Den.KZGCommitments),
-  ("deneb.ExecutionPayloadHeader", Den.ExecutionPayloadHeader), ("deneb.ExecutionPayload", Den.ExecutionPayload),
-  ("deneb.BeaconState", Den.BeaconState)
+def denebTable : List (Name × STy) := [
+  (n!"deneb.SignedBeaconBlock", Den.SignedBeaconBlock), (n!"deneb.BeaconBlock", Den.BeaconBlock),
+  (n!"deneb.BeaconBlockBody", Den.BeaconBlockBody), (n!"deneb.BeaconBlockBodyShallow", Den.BeaconBlockBodyShallow),
+  (n!"deneb.KZGCommitments", Den.KZGCommitments),
+  (n!"deneb.ExecutionPayloadHeader", Den.ExecutionPayloadHeader), (n!"deneb.ExecutionPayload", Den.ExecutionPayload),
+  (n!"deneb.BeaconState", Den.BeaconState)
 ]
 
 /-! ## electra -/
 namespace Ele
-def AttestationBits : STy := .bitlist (c "MAX_VALIDATORS_PER_COMMITTEE" * c "MAX_COMMITTEES_PER_SLOT")
-def CommitteeBits : STy := .bitvector (c "MAX_COMMITTEES_PER_SLOT")
+def AttestationBits : STy := .bitlist (c n!"MAX_VALIDATORS_PER_COMMITTEE" * c n!"MAX_COMMITTEES_PER_SLOT")
+def CommitteeBits : STy := .bitvector (c n!"MAX_COMMITTEES_PER_SLOT")
 def Attestation := struct [
-  ("aggregation_bits", AttestationBits), ("data", AttestationData), ("signature", BLSSignature),
-  ("committee_bits", CommitteeBits)]
+  (n!"aggregation_bits", AttestationBits), (n!"data", AttestationData), (n!"signature", BLSSignature),
+  (n!"committee_bits", CommitteeBits)]
 def IndexedAttestation := struct [
-  ("attesting_indices", .list ValidatorIndex (c "MAX_VALIDATORS_PER_COMMITTEE" * c "MAX_COMMITTEES_PER_SLOT")),
-  ("data", AttestationData), ("signature", BLSSignature)]
+  (n!"attesting_indices", .list ValidatorIndex (c n!"MAX_VALIDATORS_PER_COMMITTEE" * c n!"MAX_COMMITTEES_PER_SLOT")),
+  (n!"data", AttestationData), (n!"signature", BLSSignature)]
 def SingleAttestation := struct [
-  ("committee_index", CommitteeIndex), ("attester_index", ValidatorIndex), ("data", AttestationData),
-  ("signature", BLSSignature)]
-def AttesterSlashing := struct [("attestation_1", IndexedAttestation), ("attestation_2", IndexedAttestation)]
-def AttesterSlashings : STy := .list AttesterSlashing (c "MAX_ATTESTER_SLASHINGS_ELECTRA")
-def Attestations : STy := .list Attestation (c "MAX_ATTESTATIONS_ELECTRA")
+  (n!"committee_index", CommitteeIndex), (n!"attester_index", ValidatorIndex), (n!"data", AttestationData),
+  (n!"signature", BLSSignature)]
+def AttesterSlashing := struct [(n!"attestation_1", IndexedAttestation), (n!"attestation_2", IndexedAttestation)]
+def AttesterSlashings : STy := .list AttesterSlashing (c n!"MAX_ATTESTER_SLASHINGS_ELECTRA")
+def Attestations : STy := .list Attestation (c n!"MAX_ATTESTATIONS_ELECTRA")
 def ExecutionRequests := struct [
-  ("deposits", DepositRequests), ("withdrawals", WithdrawalRequests), ("consolidations", ConsolidationRequests)]
-def bodyOf (payloadField : String × STy) : List (String × STy) := [
-  ("randao_reveal", BLSSignature), ("eth1_data", Eth1Data), ("graffiti", Bytes32),
-  ("proposer_slashings", P0.ProposerSlashings), ("attester_slashings", AttesterSlashings),
-  ("attestations", Attestations), ("deposits", P0.Deposits), ("voluntary_exits", P0.VoluntaryExits),
-  ("sync_aggregate", Alt.SyncAggregate), payloadField,
-  ("bls_to_execution_changes", SignedBLSToExecutionChanges), ("blob_kzg_commitments", Den.KZGCommitments),
-  ("execution_requests", ExecutionRequests)]
-def BeaconBlockBody := struct (bodyOf ("execution_payload", Den.ExecutionPayload))
-def BeaconBlockBodyShallow := struct (bodyOf ("execution_payload_root", Root))
+  (n!"deposits", DepositRequests), (n!"withdrawals", WithdrawalRequests), (n!"consolidations", ConsolidationRequests)]
+def bodyOf (payloadField : Name × STy) : List (Name × STy) := [
+  (n!"randao_reveal", BLSSignature), (n!"eth1_data", Eth1Data), (n!"graffiti", Bytes32),
+  (n!"proposer_slashings", P0.ProposerSlashings), (n!"attester_slashings", AttesterSlashings),
+  (n!"attestations", Attestations), (n!"deposits", P0.Deposits), (n!"voluntary_exits", P0.VoluntaryExits),
+  (n!"sync_aggregate", Alt.SyncAggregate), payloadField,
+  (n!"bls_to_execution_changes", SignedBLSToExecutionChanges), (n!"blob_kzg_commitments", Den.KZGCommitments),
+  (n!"execution_requests", ExecutionRequests)]
+def BeaconBlockBody := struct (bodyOf (n!"execution_payload", Den.ExecutionPayload))
+def BeaconBlockBodyShallow := struct (bodyOf (n!"execution_payload_root", Root))
 def BeaconBlock := P0.blockOf BeaconBlockBody
 def SignedBeaconBlock := P0.signedOf BeaconBlock
 def BeaconState := struct (P0.stateHead ++ Alt.stateMid ++ Cap.stateTail Den.ExecutionPayloadHeader ++ [
-  ("deposit_requests_start_index", uint64), ("deposit_balance_to_consume", Gwei),
-  ("exit_balance_to_consume", Gwei), ("earliest_exit_epoch", Epoch),
-  ("consolidation_balance_to_consume", Gwei), ("earliest_consolidation_epoch", Epoch),
-  ("pending_deposits", PendingDeposits), ("pending_partial_withdrawals", PendingPartialWithdrawals),
-  ("pending_consolidations", PendingConsolidations)])
+  (n!"deposit_requests_start_index", uint64), (n!"deposit_balance_to_consume", Gwei),
+  (n!"exit_balance_to_consume", Gwei), (n!"earliest_exit_epoch", Epoch),
+  (n!"consolidation_balance_to_consume", Gwei), (n!"earliest_consolidation_epoch", Epoch),
+  (n!"pending_deposits", PendingDeposits), (n!"pending_partial_withdrawals", PendingPartialWithdrawals),
+  (n!"pending_consolidations", PendingConsolidations)])
 -- electra/validator.md
 def AggregateAndProof := struct [
-  ("aggregator_index", ValidatorIndex), ("aggregate", Attestation), ("selection_proof", BLSSignature)]
+  (n!"aggregator_index", ValidatorIndex), (n!"aggregate", Attestation), (n!"selection_proof", BLSSignature)]
 def SignedAggregateAndProof := P0.signedOf AggregateAndProof
 end Ele
 
-def electraTable : List (String × STy) := [
-  ("electra.SignedAggregateAndProof", Ele.SignedAggregateAndProof), ("electra.AggregateAndProof", Ele.AggregateAndProof),
-  ("electra.SingleAttestation", Ele.SingleAttestation), ("electra.Attestation", Ele.Attestation),
-  ("electra.IndexedAttestation", Ele.IndexedAttestation), ("electra.Attestations", Ele.Attestations),
-  ("electra.AttestationBits", Ele.AttestationBits),
-  ("electra.AttesterSlashing", Ele.AttesterSlashing), ("electra.AttesterSlashings", Ele.AttesterSlashings),
-  ("electra.SignedBeaconBlock", Ele.SignedBeaconBlock), ("electra.BeaconBlock", Ele.BeaconBlock),
-  ("electra.BeaconBlockBody", Ele.BeaconBlockBody), ("electra.BeaconBlockBodyShallow", Ele.BeaconBlockBodyShallow),
-  ("electra.CommitteeBits", Ele.CommitteeBits), ("electra.ExecutionRequests", Ele.ExecutionRequests),
-  ("electra.BeaconState", Ele.BeaconState)
+def electraTable : List (Name × STy) := [
+  (n!"electra.SignedAggregateAndProof", Ele.SignedAggregateAndProof), (n!"electra.AggregateAndProof", Ele.AggregateAndProof),
+  (n!"electra.SingleAttestation", Ele.SingleAttestation), (n!"electra.Attestation", Ele.Attestation),
+  (n!"electra.IndexedAttestation", Ele.IndexedAttestation), (n!"electra.Attestations", Ele.Attestations),
+  (n!"electra.AttestationBits", Ele.AttestationBits),
+  (n!"electra.AttesterSlashing", Ele.AttesterSlashing), (n!"electra.AttesterSlashings", Ele.AttesterSlashings),
+  (n!"electra.SignedBeaconBlock", Ele.SignedBeaconBlock), (n!"electra.BeaconBlock", Ele.BeaconBlock),
+  (n!"electra.BeaconBlockBody", Ele.BeaconBlockBody), (n!"electra.BeaconBlockBodyShallow", Ele.BeaconBlockBodyShallow),
+  (n!"electra.CommitteeBits", Ele.CommitteeBits), (n!"electra.ExecutionRequests", Ele.ExecutionRequests),
+  (n!"electra.BeaconState", Ele.BeaconState)
 ]
 
 end Zrnt.Schema.Spec
